@@ -282,6 +282,16 @@ static int recv_events(m_ctx_t *c, int timeout) {
                 p = p->process(p, c, i, evt);
             }
             err = errno; // Store any errno that happened while consuming events
+            if (err == EAGAIN || err == EINTR) {
+                /*
+                 * This very event could not be consumed (eg: another source watching
+                 * the same signal already took it): it is not an error, and it must not
+                 * drop the remaining events of the batch (a oneshot source is not reported twice).
+                 */
+                err = 0;
+                m_mem_unref(evt);
+                continue;
+            }
             bool msg_consumed = false;
 
             if (err == 0) {
@@ -339,8 +349,7 @@ static int recv_events(m_ctx_t *c, int timeout) {
                 m_mem_unref(evt);
             }
         } else {
-            /* Forward error to below handling code */
-            err = EAGAIN;
+            /* Nothing to be done for this one; go on with the batch */
             M_WARN("Received message without proper source: src -> %p\n", p);
         }
     }
